@@ -337,6 +337,15 @@ func (w *World) checkC11(pre, post views, e Event, pkt *Packet) {
 				w.violate("C11", "recover", "heard-from-but-still-unreachable", "%s received a datagram from %s after marking it unreachable, re-evaluated liveness, and still marks it unreachable", w.nodes[i].ID, w.nodes[x].ID)
 			}
 		}
+		// ... and only then: what a third node relays about x says nothing about
+		// x being alive
+		for x, h := range w.heardAtLiveness {
+			id := w.nodes[x].ID
+			p, v := pre[i][id], post[i][id]
+			if !h && p != nil && v != nil && p.Unreachable && !v.Unreachable {
+				w.violate("C11", "recover", "restored-without-being-heard", "%s restored %s (reachable again, expiry cleared) although no datagram from %s has reached it since it was marked unreachable", w.nodes[i].ID, id, id)
+			}
+		}
 	}
 	if e.Kind == "sweep" {
 		i := e.A
